@@ -27,15 +27,16 @@ PAST_BINT = ['since_t']
 PAST_OPS = PAST_UN + PAST_UNT + PAST_BIN + PAST_BINT
 
 
-def h_online(f, N, ext=True, kind='combined'):
+def h_online(f, N, ext=True, kind='combined', itext=None, period=None):
+    """itext: the text given to rtamt when it is not the canonical rendering of f (bounds written as durations; f has them in samples)"""
     f = T(f)
     vs = sorted(variables(f))
     uf = refsem.has(f, {'sqrt', 'exp', 'ln', 'pow', 'log'})
 
     def body(env):
         A = env.A
-        son = dt.make_spec(kind, 'out = ' + text(f), vs)
-        soff = dt.make_spec('offline~', 'out = ' + text(f), vs)
+        son = dt.make_spec(kind, 'out = ' + (itext or text(f)), vs, period=period)
+        soff = dt.make_spec('offline~', 'out = ' + (itext or text(f)), vs, period=period)
         w = dt.trace(env, vs, N, ext=ext and not uf)
         if uf:
             for v in vs:
@@ -207,6 +208,22 @@ def obligations(tier, rng):
     for f in fdup():
         for N in ([4] if quick else [3, 6]):
             out.append(ob('C02', 'online', 'Fdup/%s/N=%d' % (text(f), N), f=f, N=N, ext=_ext_ok(f)))
+    # near-duplicates: two stateful operators over the same operand whose texts differ only in the fractional part of a bound or in a
+    # unit (period 500 ms: bounds are durations in s, the formula for the oracle has them in samples)
+    near = []
+    for k, rnd in (('once_t', 'once[%s,%s](x)'), ('historically_t', 'historically[%s,%s](x)'), ('since_t', '(x) since[%s,%s] (y)')):
+        mk = (lambda a, b, k=k: (k, X, a, b)) if k != 'since_t' else (lambda a, b, k=k: (k, X, Y, a, b))
+        for (t1, b1), (t2, b2) in [((('0', '1'), (0, 2)), (('0.5', '1.5'), (1, 3))), ((('0.5', '1'), (1, 2)), (('0', '1.5'), (0, 3))),
+                                   ((('1', '2'), (2, 4)), (('1.5', '2.5'), (3, 5))), ((('0', '1s'), (0, 2)), (('0', '1500ms'), (0, 3))),
+                                   ((('500ms', '1s'), (1, 2)), (('500ms', '1500ms'), (1, 3)))]:
+            for con in (('or', 'add') if quick else ('or', 'and', 'add', 'implies')):
+                for order in ((0, 1), (1, 0)):
+                    pr = [(rnd % t1, mk(*b1)), (rnd % t2, mk(*b2))]
+                    (ta, fa), (tb, fb) = pr[order[0]], pr[order[1]]
+                    near.append((refsem.text((con, ('var', 'P'), ('var', 'Q'))).replace('P', ta).replace('Q', tb), (con, fa, fb)))
+    for itext, f in near:
+        for N in ([7] if quick else [5, 9]):
+            out.append(ob('C02', 'online', 'Fnear/%s/N=%d' % (itext, N), f=f, N=N, ext=False, itext=itext, period=[500, 'ms']))
     for i in range(40 if quick else 500):
         f = refsem.gen_formula(rng, rng.choice([3, 4]), nodiv, [(0, 1), (1, 2), (0, 2)], ('x', 'y'))
         N = rng.choice([3, 5, 6])
